@@ -4,11 +4,11 @@ import (
 	"fmt"
 	"runtime/debug"
 
-	"verifharness/engine"
 	"reflect"
 	"sort"
 	"strings"
 	"unsafe"
+	"verifharness/engine"
 
 	"github.com/elk-language/elk/value"
 	"github.com/elk-language/elk/vm"
